@@ -79,6 +79,11 @@ CHECKS = {
             "context's quote character, and the adversarial token stream must be the plain one with each identifier token replaced by an identifier token "
             "decoding to the adversarial name - one name, one token, same spelling at definition and reference, structure unchanged.",
             "Trusted: identifier rules of the reference lexers; the template list (one per emission site) in pbt/props/c07.py. CTE templates stop at the known bare-name finding."),
+    "C11": ("Hypothesis-generated statements with a uniquely named marker field in every clause over 1-3 sources of every shape; independent qualification model; SQLite ambiguity check",
+            "For every marker field the two tokens before it in the rendered statement are compared with an independent model (qualified iff the source is aliased or the "
+            "statement is multi-source, by alias if any, bare in INSERT columns / SET target / ON CONFLICT target / USING). SQLite-class SELECTs are prepared against a "
+            "schema in which all tables share the column names, so a missing qualifier is reported by the engine as ambiguous and a wrong one as unknown.",
+            "Trusted: the qualification model in pbt/props/c11.py; positions where SQL itself decides (upsert values) accept either form with the right name."),
 }
 
 NOT_BUILT = {}
